@@ -310,7 +310,7 @@ PROPS.update({
     relevant=lambda c: kind(c) in ('sl', 'slx', 'client'),
     also=['C14'],
     project=lambda c: proj_client('class')(c) if kind(c) == 'client' else proj_sl(c),
-    lean_modules=['ClockBound.Properties.C18'],
+    lean_modules=['ClockBound.Properties.C18', 'ClockBound.Properties.SeqlockProg'],
     technique='Lean 4 termination measure on the reader machine, for every log and every load result + full exhaustion runs of the real snapshot() against an adversarial value script + scheduler runs with a writer killed at every kind of point',
     level_text='Theorems C18.step_decreases / bounded: every shared access of snapshot() ends the call or strictly decreases an explicit measure <= 2 + 10^6 * 9, whatever the log contains and whatever the loads return (so for a writer stopped for ever at any point or updating continuously); in_flight_answers_from_cache / version_zero_answers_from_cache: an odd or zero generation, or version 0, is answered from the cache after at most two loads.',
     level_note='Trusted: Lean kernel + standard axioms; the bound is on shared accesses, not on seconds.',
@@ -319,7 +319,7 @@ PROPS.update({
 
 PROPS['C01'] = dict(
     oracle='C01', also=['C02', 'C13', 'C07'],
-    lean_modules=['ClockBound.Properties.C01'],
+    lean_modules=['ClockBound.Properties.C01', 'ClockBound.Properties.C01Pipeline'],
     gens=lambda seed, th: [['worldgen', seed, 30000 if th else 1200], ['slgen', seed, 5000 if th else 300], ['slxgen'], ['poll', seed, 10000 if th else 1500]],
     relevant=lambda c: kind(c) in ('world', 'sl', 'slx', 'poll'),
     project=lambda c: proj_poll_c13(c) if kind(c) == 'poll' else (c.impl, c.model),
